@@ -182,6 +182,62 @@ def gen_matrix(rng):
     return M, '*'.join(kinds)
 
 
+def gen_nearid(rng):
+    """an invertible matrix within np.allclose's tolerance class of the identity (or just outside),
+    together with a coordinate generator at the magnitude where the map visibly moves points:
+    scale 1 +- 1e-6..1e-5 of map-scale coordinates, rotations by 1e-9..1e-6 rad far from the origin,
+    translations by 1e-9..1e-8 of a drawing ~1e-8..1e-7 across, and combinations"""
+    kind = rng.choice(['scale', 'rot', 'transl', 'combined'])
+    eps = 10 ** rng.uniform(-6, -5) * rng.choice([1, -1])
+    eps2 = eps if rng.random() < 0.6 else 10 ** rng.uniform(-6, -5) * rng.choice([1, -1])
+    th = 10 ** rng.uniform(-9, -6) * rng.choice([1, -1])
+    dx = 10 ** rng.uniform(-9, -8) * rng.choice([1, -1])
+    dy = 10 ** rng.uniform(-9, -8) * rng.choice([0, 1, -1])
+    if kind == 'scale':
+        M, mag = mat(1 + eps, 0.0, 0.0, 1 + eps2), 10 ** rng.uniform(5, 7)
+    elif kind == 'rot':
+        M, mag = mat(math.cos(th), -math.sin(th), math.sin(th), math.cos(th)), 10 ** rng.uniform(8, 10)
+    elif kind == 'transl':
+        M, mag = mat(1.0, 0.0, 0.0, 1.0, dx, dy), 10 ** rng.uniform(-8, -7)
+    else:
+        M = matmul(mat(1 + eps, 0.0, 0.0, 1 + eps2), mat(math.cos(th), -math.sin(th), math.sin(th), math.cos(th)))
+        M[0][2], M[1][2] = dx, dy
+        mag = 10 ** rng.uniform(6, 9)
+    return {'op': 'transform', 'M': M, 'mkind': 'nearid-' + kind}, (lambda: complex(rng.uniform(-mag, mag),
+                                                                                    rng.uniform(-mag, mag)))
+
+
+def gen_nearid_path(rng):
+    op, pt = gen_nearid(rng)
+    n = rng.choice([1, 2, 3, 4])
+    closed = rng.random() < 0.5
+    verts = [pt() for _ in range(n + 1)]
+    if closed:
+        verts[n] = verts[0]
+    specs = []
+    for i in range(n):
+        k = rng.choice([2, 3, 4]) if verts[i] != verts[i + 1] else 4
+        specs.append(('bez', [verts[i]] + [pt() for _ in range(k - 2)] + [verts[i + 1]]))
+    return specs, closed, op
+
+
+def gen_path_hist(rng):
+    """an OPEN path (first and last segment Bezier) that the harness closes by an in-place edit of a
+    segment attribute after the Path object exists: path[-1].end = path[0].start ('end') or
+    path[0].start = path[-1].end ('start').  Path caches _start/_end at construction."""
+    while True:
+        specs, closed, mode = gen_path(rng)
+        if closed or len(specs) < 2:
+            continue
+        for k in (0, -1):
+            if specs[k][0] == 'arc':
+                a = specs[k][1]
+                specs[k] = ('bez', [a[0], a[5]])
+        if specs[0][1][0] == specs[-1][1][-1]:
+            continue
+        return specs, mode, rng.choice(['end', 'start'])
+
+
 def gen_op(rng, arc=False):
     k = rng.choice(['translate', 'rotate', 'rotate', 'scale', 'scale', 'transform', 'transform'])
     if k == 'translate':
@@ -681,7 +737,7 @@ def run(rep, tier, seed, replay=None):
             r = json.load(open(replay))['replay']
             if r.get('kind') == 'path':
                 path_todo = [([spec_from_json(s) for s in r['segments']], r.get('closed', False), 'replay',
-                              op_from_json(r['opspec']))]
+                              op_from_json(r['opspec']), r.get('closed_by'))]
             elif 'segment' in r:
                 seg_todo = [(spec_from_json(r['segment']), op_from_json(r['opspec']), 'replay')]
         else:
@@ -700,12 +756,21 @@ def run(rep, tier, seed, replay=None):
             for i in range(n_bez):
                 pts, mode = gen_points(rng, rng.choice([2, 3, 4]))
                 seg_todo.append((('bez', fix_line(pts)), gen_op(rng), mode))
+            for i in range(max(40, n_bez // 8)):
+                op, pt = gen_nearid(rng)
+                seg_todo.append((('bez', fix_line([pt() for _ in range(rng.choice([2, 3, 4]))])), op, op['mkind']))
             for i in range(n_arc):
                 a = gen_arc(rng, i)
                 seg_todo.append((('arc', a[:6]), gen_op(rng, arc=True), 'arc-' + a[6]))
             for i in range(n_path):
                 specs, closed, mode = gen_path(rng)
                 path_todo.append((specs, closed, mode, gen_op(rng)))
+            for i in range(max(30, n_path // 10)):
+                specs, closed, op = gen_nearid_path(rng)
+                path_todo.append((specs, closed, op['mkind'], op))
+            for i in range(max(60, n_path // 4)):
+                specs, mode, how = gen_path_hist(rng)
+                path_todo.append((specs, True, mode + '-closed-in-place', gen_op(rng), how))
 
         # ---------------- segments
         bez_cases, bez_meta, arc_cases, arc_meta = [], [], [], []
@@ -785,7 +850,7 @@ def run(rep, tier, seed, replay=None):
             onorm, ooff = op_norm(op)
             if kind == 'bez':
                 pts = spec[1]
-                size = (sum(abs(p) for p in pts) + ooff + 1.0) * onorm
+                size = (sum(abs(p) for p in pts) + ooff) * onorm or 2.0 ** -1000
                 origin_default = complex(seg.point(0.5))
             else:
                 size = (abs(seg.start) + abs(seg.end) + abs(seg.radius) + abs(seg.center) + ooff + 1.0) * onorm
@@ -843,12 +908,19 @@ def run(rep, tier, seed, replay=None):
         # ---------------- paths
         path_cases, path_meta, f_cases, f_meta = [], [], [], []
         closed_stats = {}
-        for specs, closed, mode, op in path_todo:
-            dk = 'path/%s/%s' % (op['op'], 'closed' if closed else 'open')
+        for ptodo in path_todo:
+            specs, closed, mode, op = ptodo[:4]
+            hist = ptodo[4] if len(ptodo) > 4 else None
+            dk = 'path/%s/%s' % (op['op'], ('closed-in-place' if hist else 'closed') if closed else 'open')
             dist[dk] = dist.get(dk, 0) + 1
             rj = {'kind': 'path', 'segments': [spec_json(s) for s in specs], 'closed': closed, 'opspec': op_json(op),
                   'python': 'Path(%s)%s' % (', '.join(spec_py(s) for s in specs), op_py(op)),
                   'how': './check C10 --replay <this file>'}
+            if hist:
+                rj['closed_by'] = hist
+                rj['python'] = 'p = Path(%s); %s; p%s' % (
+                    ', '.join(spec_py(s) for s in specs),
+                    'p[-1].end = p[0].start' if hist == 'end' else 'p[0].start = p[-1].end', op_py(op))
             has_arc = any(s[0] == 'arc' for s in specs)
             if has_arc and op['op'] == 'transform' and not is_identity(op):
                 op = {'op': 'translate', 'z0': complex(op['M'][0][2], op['M'][1][2])}   # arc transform: see segment cases
@@ -859,6 +931,13 @@ def run(rep, tier, seed, replay=None):
             try:
                 segs = [mk_seg(s) for s in specs]
                 path = Path(*segs)
+                if hist == 'end':
+                    path[-1].end = path[0].start          # in-place edit: the Path's cached _end goes stale
+                elif hist == 'start':
+                    path[0].start = path[-1].end
+                if hist:                                  # the segments as they are now
+                    specs = [('bez', [complex(z) for z in sg.bpoints()]) if sp[0] == 'bez' else sp
+                             for sg, sp in zip(segs, specs)]
                 old_j = joints_of(segs)
                 was_closed = old_j[-1]
                 if op['op'] == 'rotate' and op['origin'] is None:
@@ -886,6 +965,37 @@ def run(rep, tier, seed, replay=None):
                 continue
             bad = None
             new_j = joints_of(rsegs)
+            # the property statement segment by segment: res[i].point(t) vs the map applied to path[i].point(t)
+            onorm, ooff = op_norm(kop)
+            fmap = float_map(kop, None)
+            for i in range(n):
+                sg = segs[i]
+                if isinstance(sg, Arc):
+                    sz = (abs(sg.start) + abs(sg.end) + abs(sg.radius) + abs(sg.center) + ooff) * onorm
+                    tolp = 1e-7 * sz
+                else:
+                    sz = (sum(abs(z) for z in sg.bpoints()) + ooff) * onorm
+                    tolp = 1e-9 * sz
+                smp = []
+                for t in (0.0, 0.5, 1.0 / 3.0, 1.0):
+                    p0, p1 = complex(sg.point(t)), complex(rsegs[i].point(t))
+                    smp.append((t, p0, p1))
+                    evals += 1
+                    if not abs(p1 - fmap(p0)) <= tolp and bad is None:
+                        bad = ('path-%s-point' % op['op'], 'segment %d of the result: point(%r) differs from the map '
+                               'applied to the original point by %.3g (> %.3g)' % (i, t, abs(p1 - fmap(p0)), tolp))
+                if not has_arc and op['op'] == 'transform' and bad is None and \
+                        (str(mode).startswith('nearid') or len(path_cases) % 3 == 0):
+                    # and in exact rationals, as a segment case
+                    bez_cases.append('(%s, %s, %s, %s, %s, %s)' % (
+                        coq_list([cq(z) for z in sg.bpoints()]), coq_op_q(kop), qc(Fr(sz) if sz > 0 else Fr(1, 2 ** 1000)),
+                        coq_list([cq(z) for z in rsegs[i].bpoints()]),
+                        coq_list(['(%s, %s, %s)' % (qc(t), cq(a), cq(b)) for t, a, b in smp]),
+                        coq_bool(rsegs[i] is sg)))
+                    bez_meta.append((('bez', list(sg.bpoints())), kop, dict(rj, segment_index=i)))
+            if bad:
+                viol(bad[0], bad[1], rj)
+                continue
             for i in range(n):
                 a, b = rsegs[i], new0[i]
                 same_body = (a.start == b.start and
@@ -900,13 +1010,13 @@ def run(rep, tier, seed, replay=None):
             if bad:
                 viol(bad[0], bad[1], rj)
                 continue
-            ck = (op['op'], 'bezier' if not has_arc else 'mixed')
+            ck = (op['op'], ('bezier' if not has_arc else 'mixed') + ('/closed-in-place' if hist else ''))
             if was_closed:
                 st = closed_stats.setdefault(ck, [0, 0])
                 st[0] += 1
                 if not new_j[-1]:
                     st[1] += 1
-                    key = 'scaled-unclosed' if op['op'] == 'scale' else 'closed-lost-' + op['op']
+                    key = 'scaled-unclosed' if (op['op'] == 'scale' and not cj) else 'closed-lost-' + op['op']
                     viol(key, 'closed path (end == start exactly) is not closed after the operation: '
                          'end %r vs start %r' % (rsegs[-1].end, rsegs[0].start),
                          dict(rj, end=common.chex(rsegs[-1].end), start=common.chex(rsegs[0].start)))
@@ -930,13 +1040,17 @@ def run(rep, tier, seed, replay=None):
                                      'implementation: got %r' % (got,))
 
         # ---------------- Coq
-        f1, e1 = common.run_cases(tmp, '', 'casety', OKDEF_BEZ, bez_cases, shard=60, prefix='bez') if bez_cases else ([], [])
-        f3, e3 = common.run_cases(tmp, '', 'casety', okdef_path, path_cases, shard=60, prefix='path') if path_cases else ([], [])
-        f4, e4 = common.run_cases(tmp, '', 'casety', okdef_f, f_cases, shard=100, prefix='fl') if f_cases else ([], [])
-        f2, e2 = common.run_cases(tmp, 'From SVP Require Import Base.BigF.\n', 'casety', OKDEF_ARC, arc_cases,
-                                  shard=12, prefix='arc') if arc_cases else ([], [])
-        f5, e5 = common.run_cases(tmp, 'From SVP Require Import Base.BigF.\n', 'casety', OKDEF_TFD, tfd_cases,
-                                  shard=12, prefix='tfd') if tfd_cases else ([], [])
+        # the five families of case files are independent: evaluate them concurrently
+        from concurrent.futures import ThreadPoolExecutor
+        BFH = 'From SVP Require Import Base.BigF.\n'
+        jobs = [('', OKDEF_BEZ, bez_cases, 60, 'bez'), (BFH, OKDEF_ARC, arc_cases, 12, 'arc'),
+                ('', okdef_path, path_cases, 60, 'path'), ('', okdef_f, f_cases, 100, 'fl'),
+                (BFH, OKDEF_TFD, tfd_cases, 12, 'tfd')]
+        def _job(j):
+            pre, okd, cs, sh, pf = j
+            return common.run_cases(tmp, pre, 'casety', okd, cs, shard=sh, prefix=pf) if cs else ([], [])
+        with ThreadPoolExecutor(max_workers=5) as ex:
+            (f1, e1), (f2, e2), (f3, e3), (f4, e4), (f5, e5) = list(ex.map(_job, jobs))
         tf_wrong = 0
         for idx, code in f5:
             if code == 50:
